@@ -548,8 +548,8 @@ class IASolverBaseClass:  # pylint: disable=R0902
             Power of each user. If not provided, a value of 1 will be used
             for each user.
         """
-        if isinstance(Ns, int):
-            Ns = np.ones(self.K, dtype=int) * Ns
+        if isinstance(Ns, (int, np.integer)):
+            Ns = np.ones(self.K, dtype=int) * int(Ns)
         assert (not isinstance(Ns, int))
 
         # Set (and validate) the power before anything is cleared: a
